@@ -30,14 +30,14 @@ ASSUMPTIONS = [
     "name exists is used (naming not judged)",
 ]
 REQUIRED = {'pipeline_sends': 300, 'filter_calls_logged': 300, 'edge_cells': 1000,
-            'delta_steps': 500, 'dataedit_chains': 1000, 'ifoutput_checks': 50,
+            'delta_steps': 500, 'dataedit_chains': 1000, 'ifoutput_checks': 50, 'conditional_pipeline_events': 10,
             'ifnotinit_checks': 4, 'pipeline_rejections': 50, 'pipeline_deliveries': 50}
 SHARDS = {'quick': 8, 'thorough': 16}
 TIMEOUT = {'quick': 300, 'thorough': 3000}
 
 FKINDS = ['pass_true', 'pass_obj', 'rej_false', 'rej_none', 'rej_zero', 'rej_empty',
           'edit_new', 'edit_inplace_true', 'edit_inplace_ret', 'edit_inplace_rej', 'empty_dict',
-          'edit_new_drop']
+          'edit_new_drop', 'negate_value']
 
 
 def apply_script(kind, n, data):
@@ -64,6 +64,10 @@ def apply_script(kind, n, data):
         return new
     if kind == 'empty_dict':
         return {}
+    if kind == 'negate_value':
+        new = dict(data)
+        new['value'] = not data.get('value')
+        return new
     if kind == 'edit_inplace_true':
         data[f"i{n}"] = n
         return True
@@ -104,12 +108,15 @@ def gen_pipeline_cases(ctx):
             if idx % nsh == shard:
                 yield {'part': 'pipeline', 'kinds': list(kinds),
                        'data': {'value': idx % 5, 'x': 'y'}, 'as': ('list', 'tuple', 'single')[idx % 3],
-                       'enum': True}
+                       'cond': (None, 'tf', 'tn', 'nf')[(idx // 3) % 4], 'enum': True}
     for _ in range(150 if ctx.tier == 'quick' else 40000):
         kinds = [rng.choice(FKINDS) for _ in range(3)]
         data = {k: rng.choice([0, 1, None, 'v', (1,)]) for k in rng.sample(
             ['value', 'previous', 'x', 'extra', 'trigger'], rng.randrange(0, 5))}
-        yield {'part': 'pipeline', 'kinds': kinds, 'data': data, 'as': rng.choice(['list', 'tuple'])}
+        case = {'part': 'pipeline', 'kinds': kinds, 'data': data, 'as': rng.choice(['list', 'tuple'])}
+        if rng.random() < 0.35:
+            case['cond'] = rng.choice(['tf', 'tn', 'nf'])
+        yield case
 
 
 def run_pipeline_batch(batch, ctx):
@@ -150,7 +157,14 @@ def run_pipeline_batch(batch, ctx):
                 filters = None
             # destination by name or by object
             dest = f"dest{ci}" if ci % 2 else edzed.get_circuit().findblock(f"dest{ci}")
-            events.append(edzed.Event(dest, f"ev{ci}", efilter=filters))
+            etype = f"ev{ci}"
+            cond = case.get('cond')
+            if cond:
+                # conditional event type: resolved from the 'value' item the destination
+                # receives, i.e. after the filters
+                etype = edzed.EventCond(etype + 't' if cond[0] == 't' else None,
+                                        etype + 'f' if cond[1] == 'f' else None)
+            events.append(edzed.Event(dest, etype, efilter=filters))
         return None
 
     async def drive(sim, _objs):
@@ -187,11 +201,26 @@ def run_pipeline_batch(batch, ctx):
                         f"expected {exp_deliv}")
                 if exp_deliv:
                     ctx.count('pipeline_deliveries')
+                    cond = case.get('cond')
+                    exp_etype = f"ev{ci}"
+                    if cond:
+                        ctx.count('conditional_pipeline_events')
+                        branch = 0 if exp_data.get('value') else 1
+                        exp_etype = (exp_etype + 'tf'[branch]) if cond[branch] != 'n' else None
+                    if exp_etype is None:
+                        if recv:
+                            raise core.Violation(
+                                'conditional-event-wrong-branch',
+                                f"filters {case['kinds']} cond {cond}: filtered value "
+                                f"{exp_data.get('value')!r} selects 'no event' but {recv} delivered")
+                        raise StopIteration
                     if len(recv) != 1:
                         raise core.Violation(
-                            'delivery-count', f"filters {case['kinds']}: {len(recv)} deliveries")
+                            'delivery-count' if not cond else 'conditional-event-wrong-branch',
+                            f"filters {case['kinds']} cond {cond}: {len(recv)} deliveries, expected "
+                            f"one {exp_etype!r} (filtered data {exp_data})")
                     _, _, _, dname, etype, rdata = recv[0]
-                    if dname != f"dest{ci}" or etype != f"ev{ci}":
+                    if dname != f"dest{ci}" or etype != exp_etype:
                         raise core.Violation('wrong-destination', f"delivered to {dname}/{etype}")
                     if rdata != exp_data:
                         raise core.Violation(
@@ -203,6 +232,8 @@ def run_pipeline_batch(batch, ctx):
                         raise core.Violation(
                             'delivered-after-veto',
                             f"filters {case['kinds']}: vetoed event was delivered: {recv}")
+            except StopIteration:
+                pass
             except core.Violation as v:
                 ctx.violation(case, v.key, v.msg, history=hist.dump())
             ctx.case_done(case, bool(case['kinds']),
